@@ -9,7 +9,7 @@ use tree_sitter::Parser;
 pub fn meta(tier: &str) -> CheckMeta {
     CheckMeta {
         id: "C20", level: "model_checking",
-        rule: "E-box + E-hist: corpus files generated from a structured description: single-test files for EVERY combination of name shape (plain, punctuation, containing an attribute-looking token, two lines) x attribute set (none, :skip, :error, :fail-fast, :language(x), :cst, two :language, :skip+:fail-fast) x input (words, multi-line, delimiter-looking lines ===, ---, -----, ===|||, parenthesised, invalid) x expected output (correct, wrong, missing, badly indented, with comments) x header length {3,5} x divider length {3,5} x suffix {none, |||} x line ending {LF, CRLF}, restricted to combinations that are well-formed under the documented delimiter rules; plus two- and three-test files built from every adjacent pair/triple of a fixed pool and 20-test files. Each file is taken through the history update, check, update, update with the real update code. Oracle (our own reader, keyed on the exact delimiter lines of the description): after the first update the file has the same number of tests with the same names, attribute lines, order and input bytes; a check run reports exactly the tests whose parse has errors (and that are not :error/:skip) as failures; the second and third update leave the file byte-identical. Non-trivial = files whose first update changes at least one expected output.",
+        rule: "E-box + E-hist: corpus files generated from a structured description: single-test files for EVERY combination of name shape (plain, punctuation, containing an attribute-looking token, two lines) x attribute set (none, :skip, :error, :platform(this / other / several), :fail-fast, :language(x), :cst, two :language, :skip+:fail-fast) x input (words, multi-line, delimiter-looking lines ===, ---, -----, ===|||, parenthesised, invalid) x expected output (correct, wrong, missing, badly indented, with comments) x header length {3,5} x divider length {3,5} x suffix {none, |||} x line ending {LF, CRLF}, restricted to combinations that are well-formed under the documented delimiter rules; plus two- and three-test files built from every adjacent pair/triple of a fixed pool and 20-test files. Each file is taken through the history update, check, update, update with the real update code. Oracle (our own reader, keyed on the exact delimiter lines of the description): after the first update the file has the same number of tests with the same names, attribute lines, order and input bytes; a check run reports exactly the tests whose parse has errors (and that are not :error/:skip) as failures; the second and third update leave the file byte-identical. Non-trivial = files whose first update changes at least one expected output.",
         assumptions: vec!["inputs that would themselves be read as a longer divider or as a complete header block are excluded (the corpus format cannot express them)".into()],
         exhaustive: true,
         bounds: json!({"tier": tier, "single_test_files": "the complete product in both tiers", "one_directory_per_file": true}),
@@ -25,7 +25,7 @@ const NAMES: [&str; 4] = ["plain name", "punct: (1) & more!", "has :skip inside"
 const INPUTS: [&str; 9] = ["a b", "abc", "a\nb c", "===", "a\n---\nb", "-----\nx", "===|||\na", "(a b) c", "a ) b"];
 
 fn attr_sets() -> Vec<Vec<&'static str>> {
-    vec![vec![], vec![":skip"], vec![":error"], vec![":fail-fast"], vec![":language(x)"], vec![":cst"], vec![":language(x)", ":language(y)"], vec![":skip", ":fail-fast"]]
+    vec![vec![], vec![":skip"], vec![":error"], vec![":fail-fast"], vec![":language(x)"], vec![":cst"], vec![":language(x)", ":language(y)"], vec![":skip", ":fail-fast"], vec![":platform(linux)"], vec![":platform(windows)"], vec![":platform(windows)", ":platform(macos)", ":error"]]
 }
 
 fn sexp_of(parser: &mut Parser, input: &str) -> (String, bool) {
@@ -266,9 +266,16 @@ pub fn worker(ctx: &Ctx, res: &mut ShardResult) {
     let _ = std::fs::remove_dir_all(&root);
 }
 
+/// `:skip`, or `:platform(..)` attributes none of which names this platform: the test is not run (and must be kept as it is)
+fn not_run(t: &TestSpec) -> bool {
+    if t.attrs.contains(&":skip") { return true; }
+    let plats: Vec<&&str> = t.attrs.iter().filter(|a| a.starts_with(":platform(")).collect();
+    !plats.is_empty() && !plats.iter().any(|a| a.trim_start_matches(":platform(").trim_end_matches(')') == std::env::consts::OS)
+}
+
 fn fail_fast_blocks(f: &FileSpec, parser: &mut Parser) -> bool {
     f.tests.iter().any(|t| {
-        if !t.attrs.contains(&":fail-fast") || t.attrs.contains(&":skip") { return false; }
+        if !t.attrs.contains(&":fail-fast") || not_run(t) { return false; }
         let (_, has_err) = sexp_of(parser, t.input);
         let error_attr = t.attrs.contains(&":error");
         if error_attr { return !has_err; }
@@ -281,7 +288,7 @@ fn expected_failures_of(f: &FileSpec, parser: &mut Parser) -> usize {
     let mut n = 0usize;
     for t in &f.tests {
         let (_, has_err) = sexp_of(parser, t.input);
-        let skip = t.attrs.contains(&":skip");
+        let skip = not_run(t);
         let error_attr = t.attrs.contains(&":error");
         // (a test is run, and can fail, once per language it names)
         let runs = t.attrs.iter().filter(|a| a.starts_with(":language")).count().max(1);
